@@ -1,2 +1,11 @@
+from ..hdl.harness import run_configs
+from . import tree, csrtarget
+
+
 def add_to(run, prop):
-    pass
+    cfgs = tree.csr_configs(run.tier, run.seed, salt=6)
+    if run.tier == "quick":
+        cfgs = cfgs[:8]
+    run.require(*(csrtarget.READ_CLAUSES + csrtarget.WRITE_CLAUSES + ["map_agreement"]))
+    run.functions["decoder trees over csr.Bridge / EventMonitor / GPIO (flattened)"] = "per generated tree (bounded), generic CSR-target contract at the root with all_resources() addresses"
+    run_configs(run, "vf.props.C06tree", cfgs, cosim_cycles=8)
